@@ -190,6 +190,7 @@ def denote (P : Params) (cfg : Cfg) : Prim → Bytes → Den
   | .bool, s => .of ((boolWord s).map .bool)
   | .time, s => .of ((P s).t.map .time)
   | .dur, s => .of ((P s).d.map .int)
+  | .opq k, s => .of (((P s).o.lookup k).map .time)
 
 def allSome {α} : List (Option α) → Option (List α)
   | [] => some []
